@@ -388,7 +388,7 @@ class ArmAnalyzer:
             c = ("matches", q.show_pat(arm["pat"]), s)
             self._bind_pat(arm["pat"], s, env2)
             vals.append(self._block(arm["body"], env2, conds + [(c, True)], depth))
-        return ("match", s, vals)
+        return ("match", s, vals, [q.show_pat(arm["pat"]) for arm in e["arms"]])
 
     def _call(self, e, env, conds, depth):
         f = e["f"]
@@ -465,6 +465,13 @@ class ArmAnalyzer:
             if m == "make_error":
                 a = e["args"][0]
                 kind = q.show(a)
+                if a["k"] == "Path" and a["p"] in env:
+                    # the kind was handed down through a helper's parameter
+                    v = env[a["p"]]
+                    if v[0] == "lit":
+                        kind = v[1]
+                    elif v[0] == "fn":
+                        kind = v[1]
                 if a["k"] == "Call":
                     kind = q.show(a["f"])
                     for x in a["args"]:
